@@ -233,10 +233,68 @@ Qed.
 Lemma start_tokens_shape : forallb (fun t => no_lf t && Nat.leb (length t) 9) start_tokens = true.
 Proof. vm_compute. reflexivity. Qed.
 
+(** the extension-method clause looks at the first eight bytes, all of them token bytes up to the space *)
+Lemma tchar_not_lf c : tchar c = true -> N.eqb c LF = false.
+Proof. intros H. destruct (N.eqb_spec c LF) as [->|]; [vm_compute in H; discriminate|reflexivity]. Qed.
+
+Lemma ext_method_firstn_cases : forall s fuel seen n,
+  ext_method fuel seen (firstn n s) = ext_method fuel seen s \/ forallb tchar (firstn n s) = true.
+Proof.
+  induction s as [|c s IH]; intros fuel seen n; [rewrite firstn_nil; left; reflexivity|].
+  destruct n as [|n]; [right; reflexivity|].
+  cbn [firstn ext_method forallb]. destruct (N.eqb c SP); [left; reflexivity|].
+  destruct fuel as [|f]; [left; reflexivity|].
+  destruct (tchar c); [|left; reflexivity]. cbn [andb]. apply IH.
+Qed.
+
+Lemma ext_method_firstn_ge : forall s fuel seen n, fuel < n -> ext_method fuel seen (firstn n s) = ext_method fuel seen s.
+Proof.
+  induction s as [|c s IH]; intros fuel seen n Hn; [rewrite firstn_nil; reflexivity|].
+  destruct n as [|n]; [lia|].
+  cbn [firstn ext_method]. destruct (N.eqb c SP); [reflexivity|].
+  destruct fuel as [|f]; [reflexivity|]. rewrite IH by lia. reflexivity.
+Qed.
+
+Lemma tchar_no_lf s : forallb tchar s = true -> no_lf s = true.
+Proof.
+  induction s as [|c s IH]; [reflexivity|]. cbn [forallb no_lf]. intros H. apply andb_true_iff in H as [H1 H2].
+  rewrite (tchar_not_lf _ H1). cbn [negb andb]. apply IH. exact H2.
+Qed.
+
+Lemma ext_method_prefix_stable s n :
+  (9 <= n \/ ctn false (firstn n s) = true) -> ext_method 7 false (firstn n s) = ext_method 7 false s.
+Proof.
+  intros [H9|Hc]; [apply ext_method_firstn_ge; lia|].
+  destruct (ext_method_firstn_cases s 7 false n) as [H|H]; [exact H|].
+  rewrite (ctn_no_lf false _ (tchar_no_lf _ H)) in Hc. discriminate.
+Qed.
+
+Lemma ext_method_app : forall a fuel seen b, ext_method fuel seen a = true -> ext_method fuel seen (a ++ b) = true.
+Proof.
+  induction a as [|c a IH]; intros fuel seen b H; [discriminate|].
+  cbn [app ext_method] in *. destruct (N.eqb c SP); [exact H|].
+  destruct fuel as [|f]; [discriminate|]. apply andb_true_iff in H as [H1 H2]. rewrite H1. cbn [andb]. apply IH. exact H2.
+Qed.
+
+(** a method token of at most [fuel] bytes, then a space *)
+Lemma ext_method_token : forall m fuel seen rest,
+  forallb tchar m = true -> length m <= fuel -> (seen = true \/ m <> []) ->
+  ext_method fuel seen (m ++ SP :: rest) = true.
+Proof.
+  induction m as [|c m IH]; intros fuel seen rest Ht Hl Hs.
+  - cbn [app ext_method]. change (N.eqb SP SP) with true. cbn iota. destruct Hs as [Hs|Hs]; [exact Hs|contradiction].
+  - cbn [forallb] in Ht. apply andb_true_iff in Ht as [Hc Ht]. cbn [length] in Hl.
+    cbn [app ext_method].
+    assert (Hsp : N.eqb c SP = false).
+    { destruct (N.eqb_spec c SP) as [->|]; [vm_compute in Hc; discriminate|reflexivity]. }
+    rewrite Hsp. destruct fuel as [|f]; [lia|]. rewrite Hc. cbn [andb]. apply IH; [exact Ht|lia|left; reflexivity].
+Qed.
+
 Lemma valid_start_prefix_stable s n :
   n <= length s -> (9 <= n \/ ctn false (firstn n s) = true) -> valid_start (firstn n s) = valid_start s.
 Proof.
-  intros Hn Hor. unfold valid_start. pose proof start_tokens_shape as Hs.
+  intros Hn Hor. unfold valid_start. rewrite (ext_method_prefix_stable s n Hor). f_equal.
+  pose proof start_tokens_shape as Hs.
   induction start_tokens as [|t l IH]; [reflexivity|].
   cbn [forallb existsb] in *. apply andb_true_iff in Hs as [Ht Hl].
   apply andb_true_iff in Ht as [Ht1 Ht2]. apply Nat.leb_le in Ht2.
@@ -245,9 +303,17 @@ Qed.
 
 Lemma valid_start_app a b : valid_start a = true -> valid_start (a ++ b) = true.
 Proof.
-  unfold valid_start. intros H. apply existsb_exists in H as [t [Hin Ht]].
+  unfold valid_start. intros H. apply orb_true_iff in H as [H|H]; apply orb_true_iff; [left|right; apply ext_method_app; exact H].
+  apply existsb_exists in H as [t [Hin Ht]].
   apply existsb_exists. exists t. split; [exact Hin|].
   apply starts_with_app in Ht as [r ->]. apply starts_with_app. exists (r ++ b). rewrite app_assoc. reflexivity.
+Qed.
+
+(** a method token of at most seven bytes followed by a space starts a request *)
+Lemma valid_start_token m rest :
+  forallb tchar m = true -> length m <= 7 -> m <> [] -> valid_start (m ++ SP :: rest) = true.
+Proof.
+  intros Ht Hl Hne. unfold valid_start. apply orb_true_iff. right. apply ext_method_token; [exact Ht|exact Hl|right; exact Hne].
 Qed.
 
 (** * The head reader: what it can return at all (every growth function, every schedule) *)
